@@ -374,6 +374,16 @@ def ctorLevels (d : Nat) (t : Tree Int ν d) (shape : List Int) : List (List FOb
   (List.range d).map (fun i =>
     (fibersAt d t i).map (fun cs => ⟨cs.map Sx.n, .n 0, .n (shape.getD i 0)⟩))
 
+/-- strictly ascending coordinates (`_checkOrdered` + `_checkUnique`) -/
+def ascB : List Int → Bool
+  | [] => true
+  | [_] => true
+  | a :: b :: r => decide (a < b) && ascB (b :: r)
+
+/-- every fiber of the tree stores strictly ascending coordinates (C01's order clause) -/
+def levelsAscB (d : Nat) (t : Tree Int ν d) : Bool :=
+  (List.range d).all (fun i => (fibersAt d t i).all ascB)
+
 def nonnegB (d : Nat) (t : Tree Int ν d) : Bool :=
   (List.range d).all (fun i => (fibersAt d t i).all (fun cs => cs.all (fun c => decide (0 ≤ c))))
 
